@@ -164,11 +164,26 @@ func GenSyscallGroup(r *mon.Rand, o EventOpts) Group {
 	if r.Chance(1, 10) { // deliberate key collision with the SYSCALL record
 		add(fmt.Sprintf("type=CAPSET %s pid=%s cap_pi=%s cap_pp=%s cap_pe=%s comm=\"%s\"", hdr, u.num(), u.word("i"), u.word("p"), u.word("e"), u.word("dupcomm")))
 	}
+	if r.Chance(1, 8) {
+		// a companion record that re-uses keys the coalescer treats specially on the SYSCALL record
+		// (items, result via res, ses, syscall, pid, comm, exe, key): collisions in both orders
+		t := mon.Pick(r, []string{"NETFILTER_CFG", "MMAP", "CAPSET", "KERN_MODULE", "SECCOMP_X", "TIME_INJOFFSET"})
+		if t == "SECCOMP_X" {
+			t = "ANOM_LINK"
+		}
+		l := fmt.Sprintf("type=%s %s items=%s", t, hdr, u.num())
+		for _, k := range []string{"ses", "pid", "ppid", "comm", "exe", "syscall", "tty", "a0", "exit", "cwd", "proctitle", "argc", "name", "saddr_x", "auid", "subj_x"} {
+			if r.Chance(1, 4) {
+				l += fmt.Sprintf(" %s=%s", k, u.word("col"))
+			}
+		}
+		add(l)
+	}
 	if r.Chance(1, 2) && o.Mode < 0 {
 		mon.Shuffle(r, rest)
 	}
 	g := Group{}
-	if r.Chance(1, 12) && len(rest) > 0 && o.Mode < 0 {
+	if r.Chance(1, 6) && len(rest) > 0 && o.Mode < 0 {
 		// a non-SYSCALL record first (as SECCOMP/AVC events can be)
 		g.Lines = append(g.Lines, rest[0], sys)
 		g.Lines = append(g.Lines, rest[1:]...)
